@@ -610,13 +610,6 @@ def classify(f):
     if 'only applicable to slices with negative step' in msg and \
             any(n['kind'] == 'blocks' and any(x[2] == -1 for a in n['arrangement'] for x in a) for n in nodes):
         return 'block-reversed-definition'
-    # raw-basis subset over a parent with a complex / LUT format function: transform_raw_slice of those classes
-    for n in nodes:
-        if n['kind'] == 'subset' and n.get('basis') == 'raw' and n['parent'].get('fmt'):
-            return 'complex-transform-raw-slice' if n['parent']['fmt']['kind'] == 'complex' else 'lut-transform-raw-slice'
-    # 2-d lookup table: SingleLUTFormatFunction.__call__ is handed the raw subscript
-    if any(n.get('fmt') and n['fmt']['kind'] == 'lut' and isinstance(n['fmt']['table'][0], list) for n in nodes):
-        return 'lut-2d-raw-subscript'
     kept = _complex_kept_leaves(f['tree'])
     if kept and ('refused' in msg or 'raised' in msg) and 'Slicing along the complex dimension' in msg:
         return 'complex-kept-band-nonunit-step'
@@ -626,6 +619,13 @@ def classify(f):
             raw_axis = leaf['trans'][bd] if leaf.get('trans') is not None else bd
             if leaf.get('rev') and raw_axis in leaf['rev']:
                 return 'complex-kept-band-reversed-band-axis'
+    # raw-basis subset over a parent with a complex / LUT format function: transform_raw_slice of those classes
+    for n in nodes:
+        if n['kind'] == 'subset' and n.get('basis') == 'raw' and n['parent'].get('fmt'):
+            return 'complex-transform-raw-slice' if n['parent']['fmt']['kind'] == 'complex' else 'lut-transform-raw-slice'
+    # 2-d lookup table: SingleLUTFormatFunction.__call__ is handed the raw subscript
+    if any(n.get('fmt') and n['fmt']['kind'] == 'lut' and isinstance(n['fmt']['table'][0], list) for n in nodes):
+        return 'lut-2d-raw-subscript'
     return None
 
 
